@@ -231,10 +231,13 @@ def desugar_internal_iteration(doc):
                 continue
             fu = t.get("func") or {}
             fr = fu.get("fn") if fu.get("k") == "const" else None
-            if not fr or fr.get("def") not in ("std::iter::Iterator::try_for_each", "std::iter::Iterator::for_each") or len(t["args"]) != 2:
+            if not fr or fr.get("def") not in ("std::iter::Iterator::try_for_each", "std::iter::Iterator::for_each", "std::iter::Iterator::try_fold"):
                 continue
-            is_try = fr["def"].endswith("try_for_each")
-            cl_op = t["args"][1]
+            is_fold = fr["def"].endswith("try_fold")
+            if len(t["args"]) != (3 if is_fold else 2):
+                continue
+            is_try = fr["def"].endswith("try_for_each") or is_fold
+            cl_op = t["args"][-1]
             if cl_op.get("k") not in ("copy", "move") or "p" in cl_op["p"]:
                 continue
             cl_ty = doc["types"][body["locals"][cl_op["p"]["l"]]["ty"]]
@@ -242,7 +245,7 @@ def desugar_internal_iteration(doc):
                 continue
             h = fns[cl_ty["path"]]
             hb = h["body"]
-            if hb["arg_count"] != 2 or len(hb["blocks"]) > MAX_BLOCKS:
+            if hb["arg_count"] != (3 if is_fold else 2) or len(hb["blocks"]) > MAX_BLOCKS:
                 continue
             ret_ty = doc["types"][hb["locals"][0]["ty"]]
             ok_variant = None
@@ -250,11 +253,12 @@ def desugar_internal_iteration(doc):
                 if ret_ty.get("k") != "adt" or ret_ty.get("path") not in _TRY_OK:
                     continue
                 ok_variant, ok_value, variants = _TRY_OK[ret_ty["path"]]
-            item_ty = hb["locals"][2]["ty"]
+            item_ty = hb["locals"][3 if is_fold else 2]["ty"]
+            acc_ty = hb["locals"][2]["ty"] if is_fold else None
             # `iter.map(|x| g(x)).try_for_each(|y| body)`: the items are produced by a local closure — splice it in front
             mp = None
             it_op = t["args"][0]
-            if it_op.get("k") in ("copy", "move") and not it_op["p"].get("p"):
+            if not is_fold and it_op.get("k") in ("copy", "move") and not it_op["p"].get("p"):
                 m_l = it_op["p"]["l"]
                 mdefs = [bl2["term"] for bl2 in body["blocks"] if bl2["term"].get("k") == "call" and not bl2["term"]["dest"].get("p") and bl2["term"]["dest"]["l"] == m_l]
                 if not mdefs:
@@ -285,15 +289,21 @@ def desugar_internal_iteration(doc):
             body["locals"].append({"ty": bool_like, "mut": True})         # discr(nx)
             body["locals"].append({"ty": bool_like, "mut": True})         # discr(r)
             nx, dnx, dr = nl, nl + 1, nl + 2
+            acc = None
+            if is_fold:
+                body["locals"].append({"ty": acc_ty, "mut": True})        # the accumulator, carried round the loop
+                acc = len(body["locals"]) - 1
             off_l = len(body["locals"])
             off_p = len(f.get("promoted", []))
             body["locals"].extend(copy.deepcopy(hb["locals"]))
             if h.get("promoted"):
                 f.setdefault("promoted", []).extend(copy.deepcopy(h["promoted"]))
             nb = len(body["blocks"])
-            H, N, S, R, X, E = nb, nb + 1, nb + 2, nb + 3, nb + 4, nb + 5
-            off_b = nb + 6
+            H, N, S, R, X, E, A = nb, nb + 1, nb + 2, nb + 3, nb + 4, nb + 5, nb + 6
+            off_b = nb + 7
             # B
+            if is_fold:
+                body["blocks"][here]["stmts"].append({"k": "assign", "p": {"l": acc}, "rv": {"k": "use", "op": copy.deepcopy(t["args"][1])}, "sp": sp})
             body["blocks"][here]["term"] = {"k": "goto", "t": H, "desugared": fr["def"], "sp": sp}
             next_fn = {"def": "std::iter::Iterator::next", "defargs": "std::iter::Iterator::next", "local": False, "targs": fr.get("targs", [])[:1],
                        "trait": "std::iter::Iterator", "rkind": "synthetic"}
@@ -321,7 +331,12 @@ def desugar_internal_iteration(doc):
                       else {"k": "use", "op": {"k": "move", "p": {"l": cl_op["p"]["l"]}}})
             item_place = {"l": nx, "p": [{"k": "downcast", "vi": 1, "adt": "std::option::Option", "variant": "Some"},
                                          {"k": "field", "i": 0, "adt": "std::option::Option", "variant": "Some", "name": "0", "ty": item_ty}], "ty": item_ty}
-            if mp is None:
+            if is_fold:
+                blocks.append({"cleanup": False, "stmts": [{"k": "assign", "p": {"l": off_l + 1}, "rv": env_rv, "sp": sp},
+                                                            {"k": "assign", "p": {"l": off_l + 2}, "rv": {"k": "use", "op": {"k": "move", "p": {"l": acc}}}, "sp": sp},
+                                                            {"k": "assign", "p": {"l": off_l + 3}, "rv": {"k": "use", "op": {"k": "move", "p": item_place}}, "sp": sp}],
+                               "term": {"k": "goto", "t": off_b}})
+            elif mp is None:
                 blocks.append({"cleanup": False, "stmts": [{"k": "assign", "p": {"l": off_l + 1}, "rv": env_rv, "sp": sp},
                                                             {"k": "assign", "p": {"l": off_l + 2}, "rv": {"k": "use", "op": {"k": "move", "p": item_place}}, "sp": sp}],
                                "term": {"k": "goto", "t": off_b}})
@@ -330,16 +345,25 @@ def desugar_internal_iteration(doc):
                 blocks.append({"cleanup": False, "stmts": [], "term": {"k": "goto", "t": off_b}})
             if is_try:
                 blocks.append({"cleanup": False, "stmts": [{"k": "assign", "p": {"l": dr}, "rv": {"k": "discr", "p": {"l": off_l}, "adt": ret_ty["path"], "variants": variants}, "sp": sp}],
-                               "term": {"k": "switch", "discr": {"k": "move", "p": {"l": dr}}, "dty": bool_like, "targets": [[str(ok_value), H]], "otherwise": X, "sp": sp}})
+                               "term": {"k": "switch", "discr": {"k": "move", "p": {"l": dr}}, "dty": bool_like, "targets": [[str(ok_value), A if is_fold else H]], "otherwise": X, "sp": sp}})
             else:
                 blocks.append({"cleanup": False, "stmts": [], "term": {"k": "goto", "t": H}})
             blocks.append({"cleanup": False, "stmts": [{"k": "assign", "p": copy.deepcopy(dest), "rv": {"k": "use", "op": {"k": "move", "p": {"l": off_l}}}, "sp": sp}], "term": {"k": "goto", "t": cont}})
-            if is_try:
+            if is_fold:
+                done_rv = {"k": "aggregate", "agg": "adt", "adt": ret_ty["path"], "variant": ok_variant, "fields": ["0"], "ops": [{"k": "move", "p": {"l": acc}}]}
+            elif is_try:
                 unit = {"k": "const", "ty": unit_ty if unit_ty is not None else 0, "v": "()"}
                 done_rv = {"k": "aggregate", "agg": "adt", "adt": ret_ty["path"], "variant": ok_variant, "fields": ["0"], "ops": [unit]}
             else:
                 done_rv = {"k": "use", "op": {"k": "const", "ty": unit_ty if unit_ty is not None else 0, "v": "()"}}
             blocks.append({"cleanup": False, "stmts": [{"k": "assign", "p": copy.deepcopy(dest), "rv": done_rv, "sp": sp}], "term": {"k": "goto", "t": cont}})
+            # A (try_fold): the closure's Ok payload is the next accumulator
+            if is_fold:
+                okp = {"l": off_l, "p": [{"k": "downcast", "vi": int(ok_value), "adt": ret_ty["path"], "variant": ok_variant},
+                                         {"k": "field", "i": 0, "adt": ret_ty["path"], "variant": ok_variant, "name": "0", "ty": acc_ty}], "ty": acc_ty}
+                blocks.append({"cleanup": False, "stmts": [{"k": "assign", "p": {"l": acc}, "rv": {"k": "use", "op": {"k": "move", "p": okp}}, "sp": sp}], "term": {"k": "goto", "t": H}})
+            else:
+                blocks.append({"cleanup": False, "stmts": [], "term": {"k": "goto", "t": H}})
             new_blocks = copy.deepcopy(hb["blocks"])
             ret_blocks = set()
             for i2, bl in enumerate(new_blocks):
@@ -390,7 +414,7 @@ def desugar_internal_iteration(doc):
                     if t2["k"] == "goto" and t2["t"] in ret_blocks:
                         v = verdict(off_b + i2)
                         if v == "ok":
-                            t2["t"] = H
+                            t2["t"] = A if is_fold else H
                         elif v == "bad":
                             t2["t"] = X
             body["blocks"].extend(blocks)
@@ -424,6 +448,93 @@ def desugar_internal_iteration(doc):
                 body["blocks"][S]["term"] = {"k": "goto", "t": off_b1}
                 f.setdefault("inlined", []).append(h1["id"])
                 done.append((f["id"], h1["id"]))
+            f.setdefault("inlined", []).append(h["id"])
+            done.append((f["id"], h["id"]))
+    return done
+
+
+# ---------------------------------------------------------------------------------------------------------------------
+# Result::map with a local closure:   r.map(|v| body)   ==>   match r { Ok(v) => Ok(body), Err(e) => Err(e) }
+#
+#   B:  d = discr(r) ; switch d { Ok -> O, otherwise -> Er }
+#   O:  env = closure ; v = (r as Ok).0 ; <closure body, inlined> ; its result x
+#   RO: dest = Ok(x) ; goto T
+#   Er: dest = Err((r as Err).0) ; goto T
+#
+# (the pinned tree has one such call; refactorings produce them when a loop body becomes `f(x).map(|y| effect(y))`)
+
+def desugar_result_map(doc):
+    fns = {f["id"]: f for f in doc["fns"]}
+    done = []
+    for f in doc["fns"]:
+        if "body" not in f:
+            continue
+        body = f["body"]
+        bi = 0
+        while bi < len(body["blocks"]) and len(body["blocks"]) < 4000:
+            here = bi
+            t = body["blocks"][bi]["term"]
+            bi += 1
+            if t.get("k") != "call" or t.get("t") is None or len(t.get("args", [])) != 2:
+                continue
+            fu = t.get("func") or {}
+            fr = fu.get("fn") if fu.get("k") == "const" else None
+            if not fr or fr.get("def") != "std::result::Result::<T, E>::map":
+                continue
+            r_op, cl_op = t["args"]
+            if any(o.get("k") not in ("copy", "move") or "p" in o["p"] for o in (r_op, cl_op)):
+                continue
+            cl_ty = doc["types"][body["locals"][cl_op["p"]["l"]]["ty"]]
+            if cl_ty.get("k") != "closure" or cl_ty.get("path") not in fns or "body" not in fns[cl_ty["path"]]:
+                continue
+            h = fns[cl_ty["path"]]
+            hb = h["body"]
+            r_l = r_op["p"]["l"]
+            r_ty = doc["types"][body["locals"][r_l]["ty"]]
+            d_ty = doc["types"][body["locals"][t["dest"]["l"]]["ty"]] if "p" not in t["dest"] else None
+            if hb["arg_count"] != 2 or len(hb["blocks"]) > MAX_BLOCKS or r_ty.get("path") != "std::result::Result" or len(r_ty.get("args", [])) != 2 \
+                    or d_ty is None or d_ty.get("path") != "std::result::Result" or h["id"] == f["id"]:
+                continue
+            _keep_raw(f)
+            ok_ty, err_ty = r_ty["args"]
+            sp = t.get("sp")
+            cont, dest = t["t"], t["dest"]
+            bool_like = _find_type(doc, lambda x: x.get("s") == "isize") or ok_ty
+            body["locals"].append({"ty": bool_like, "mut": True})
+            dl = len(body["locals"]) - 1
+            off_l = len(body["locals"])
+            off_p = len(f.get("promoted", []))
+            body["locals"].extend(copy.deepcopy(hb["locals"]))
+            if h.get("promoted"):
+                f.setdefault("promoted", []).extend(copy.deepcopy(h["promoted"]))
+            nb = len(body["blocks"])
+            O, RO, ER = nb, nb + 1, nb + 2
+            off_b = nb + 3
+            variants = [["0", "Ok"], ["1", "Err"]]
+            body["blocks"][here]["stmts"].append({"k": "assign", "p": {"l": dl}, "rv": {"k": "discr", "p": {"l": r_l}, "adt": "std::result::Result", "variants": variants}, "sp": sp})
+            body["blocks"][here]["term"] = {"k": "switch", "discr": {"k": "move", "p": {"l": dl}}, "dty": bool_like, "targets": [["0", O]], "otherwise": ER, "sp": sp, "desugared": fr["def"]}
+            env_ty = doc["types"][hb["locals"][1]["ty"]]
+            env_rv = ({"k": "ref", "mut": True, "fake": False, "p": {"l": cl_op["p"]["l"]}} if env_ty.get("k") == "ref"
+                      else {"k": "use", "op": {"k": "move", "p": {"l": cl_op["p"]["l"]}}})
+            okp = {"l": r_l, "p": [{"k": "downcast", "vi": 0, "adt": "std::result::Result", "variant": "Ok"},
+                                   {"k": "field", "i": 0, "adt": "std::result::Result", "variant": "Ok", "name": "0", "ty": ok_ty}], "ty": ok_ty}
+            errp = {"l": r_l, "p": [{"k": "downcast", "vi": 1, "adt": "std::result::Result", "variant": "Err"},
+                                    {"k": "field", "i": 0, "adt": "std::result::Result", "variant": "Err", "name": "0", "ty": err_ty}], "ty": err_ty}
+            blocks = [
+                {"cleanup": False, "stmts": [{"k": "assign", "p": {"l": off_l + 1}, "rv": env_rv, "sp": sp},
+                                             {"k": "assign", "p": {"l": off_l + 2}, "rv": {"k": "use", "op": {"k": "move", "p": okp}}, "sp": sp}], "term": {"k": "goto", "t": off_b}},
+                {"cleanup": False, "stmts": [{"k": "assign", "p": copy.deepcopy(dest), "rv": {"k": "aggregate", "agg": "adt", "adt": "std::result::Result", "variant": "Ok", "fields": ["0"],
+                                                                                           "ops": [{"k": "move", "p": {"l": off_l}}]}, "sp": sp}], "term": {"k": "goto", "t": cont}},
+                {"cleanup": False, "stmts": [{"k": "assign", "p": copy.deepcopy(dest), "rv": {"k": "aggregate", "agg": "adt", "adt": "std::result::Result", "variant": "Err", "fields": ["0"],
+                                                                                           "ops": [{"k": "move", "p": errp}]}, "sp": sp}], "term": {"k": "goto", "t": cont}},
+            ]
+            new_blocks = copy.deepcopy(hb["blocks"])
+            for bl in new_blocks:
+                _rw_block(bl, off_l, off_b, off_p if h.get("promoted") else 0, h["id"])
+                if bl["term"]["k"] == "return":
+                    bl["term"] = {"k": "goto", "t": RO}
+            body["blocks"].extend(blocks)
+            body["blocks"].extend(new_blocks)
             f.setdefault("inlined", []).append(h["id"])
             done.append((f["id"], h["id"]))
     return done
